@@ -216,4 +216,12 @@ example : ac13 0x1910 = .ok 39000 := by decide        -- frame a0001910… of th
 example : (gillhamAltFt 1279) = 126700 := by decide
 example : ac13 (ac13OfGillham (gillhamEncode 1279)) = .ok 0 := by decide +kernel  -- 126 700 ft: not representable
 
+/-- **The regenerated metre-to-foot factor is the f32 nearest to 3.28084** (audit e, F8; used by the M = 1 branch of
+    `AC13Field`, which the property's quantifier excludes but C01/C07/C08 decode): 1720105 / 2^19, which lies
+    within 2^-20 of 3.28084. -/
+theorem ft_per_m_literal :
+    Gen.Altitude.FT_PER_M_NUM = 1720105 ∧ Gen.Altitude.FT_PER_M_EXP = 19 ∧
+      3280839 * 2 ^ 19 < 1720105 * 1000000 ∧ 1720105 * 1000000 < 3280841 * 2 ^ 19 := by
+  decide
+
 end Rs1090.Props.C13
